@@ -481,6 +481,9 @@ func vMI_Empty() *MessageInfo {
 
 // vType selects a corpus type: its tables and a fresh zero message.
 func vType(k int) (*MessageInfo, pointer) {
+	if k >= 10 {
+		return vTypeAll(k - 10)
+	}
 	switch k {
 	case 0:
 		return vMI_Scalars2(), pointer{p: unsafe.Pointer(new(VScalars2))}
